@@ -36,7 +36,7 @@ NbClauses ==
                         /\ NeighbourRel(LRec, V3(Rec.kpts[Rec.kptirr[j] + 1]), V3(Rec.bk[b]),
                                         V3(Rec.kpts[Rec.nb[j][b] + 1]), V3(Rec.gv[j][b])) ]
 Clauses == IF HasNb THEN StencilClauses @@ NbClauses ELSE StencilClauses
-Report == \A n \in DOMAIN Clauses : Clauses[n] \/ PrintT(<<"BAD", i, n>>)
+Report == LET cl == Clauses IN \A n \in DOMAIN cl : cl[n] \/ PrintT(<<"BAD", i, n>>)
 RecInit == i \in 1..Len(Recs)
 RecSpec == RecInit /\ [][UNCHANGED i]_i
 =============================================================================
